@@ -448,6 +448,15 @@ func c07Assertions(c *run.Ctx, r *rand.Rand, id string, k c07cfg, w *world.World
 		if off != -time.Second {
 			c07Judge(c, id, "jwt_bearer_assertion(fractional exp)", off, out.Err == nil, world.ErrDetail(out.Err), hist)
 		}
+		if off > 0 {
+			// expiry instants in 1970: exp = 0, and fractions of the first second
+			for _, e := range []float64{0, 0.5, 0.999, 1} {
+				e := e
+				old := func(m map[string]interface{}) { m["exp"] = e }
+				out = w.Token(url.Values{"grant_type": {"client_credentials"}, "scope": {"fosite"}}, world.Auth{Mode: "none", Assertion: clientAssertion("pkj", exp, old)})
+				c07Judge(c, id, fmt.Sprintf("client_assertion(exp=%v)", e), off, out.Err == nil, world.ErrDetail(out.Err), hist)
+			}
+		}
 	}
 	c.Sample(map[string]interface{}{"kind": "assertions", "config": k.String(), "presentations": hist})
 }
